@@ -193,3 +193,70 @@ Proof.
   - eexists; split; [vm_compute; reflexivity|reflexivity].
 Qed.
 Print Assumptions C03_example.
+
+(* ---- tiled segmentation placed by the caller ------------------------------- *)
+(* whichever branch of the constructor writes TotalPixelMatrixOriginSequence
+   ('spatial locations preserved' -> copied from the source image, otherwise
+   written from the caller's plane position / Volume), the recorded origin is the
+   caller's, in all three coordinates *)
+Theorem C03_placed_origin_recorded :
+  forall src_org usr_org npos rp cp o_given src_rc src_cc u_rc u_cc m_given
+         src_spr src_spc u_spr u_spc srcR srcC MR MC src_th src_tw th tw o,
+  placed_origin src_org usr_org npos rp cp o_given src_rc src_cc u_rc u_cc m_given
+                src_spr src_spc u_spr u_spc srcR srcC MR MC src_th src_tw th tw = Ok o ->
+  o =v= usr_org.
+Proof. exact placed_origin_recorded. Qed.
+Print Assumptions C03_placed_origin_recorded.
+
+Theorem C03_placed_refused_iff :
+  forall src_org usr_org npos rp cp o_given src_rc src_cc u_rc u_cc m_given
+         src_spr src_spc u_spr u_spc srcR srcC MR MC src_th src_tw th tw k,
+  placed_origin src_org usr_org npos rp cp o_given src_rc src_cc u_rc u_cc m_given
+                src_spr src_spc u_spr u_spc srcR srcC MR MC src_th src_tw th tw = Err k <->
+  (k = "ValueError"%string /\
+   (negb (npos =? 1)%Z
+    || negb ((rp =? 1)%Z && (cp =? 1)%Z)
+    || (v3_eqb usr_org src_org
+        && (negb o_given || (v3_eqb u_rc src_rc && v3_eqb u_cc src_cc))
+        && (negb m_given || (Qeq_bool u_spr src_spr && Qeq_bool u_spc src_spc))
+        && negb ((MR =? srcR)%Z && (MC =? srcC)%Z))) = true).
+Proof. exact placed_origin_refused_iff. Qed.
+Print Assumptions C03_placed_refused_iff.
+
+(* every voxel of the geometry the placed segmentation reports lies where the
+   caller's affine put it (single plane; any stacking direction / slice spacing) *)
+Theorem C03_placed_voxel_fixed :
+  forall src_org usr_org npos rp cp o_given src_rc src_cc u_rc u_cc m_given
+         src_spr src_spc u_spr u_spc srcR srcC MR MC src_th src_tw th tw o,
+  placed_origin src_org usr_org npos rp cp o_given src_rc src_cc u_rc u_cc m_given
+                src_spr src_spc u_spr u_spc srcR srcC MR MC src_th src_tw th tw = Ok o ->
+  forall rowcos colcos spr spc sbs d0 s0 (r c : Z),
+  physZ (tiled_geometry o rowcos colcos spr spc sbs) 0 r c =v=
+  physZ (vol_aff usr_org d0 colcos rowcos s0 spr spc) 0 r c.
+Proof. exact placed_voxel_fixed. Qed.
+Print Assumptions C03_placed_voxel_fixed.
+
+(* the per-frame tile positions agree with the geometry the image reports for itself *)
+Theorem C03_tile_frames_on_geometry : forall org rowcos colcos spr spc sbs MR MC th tw M omit r c p,
+  In (r, c, p) (tile_frames org rowcos colcos spr spc MR MC th tw M omit) ->
+  p =v= physZ (tiled_geometry org rowcos colcos spr spc sbs) 0 (r - 1) (c - 1).
+Proof. exact tile_frames_on_geometry. Qed.
+Print Assumptions C03_tile_frames_on_geometry.
+
+(* non-vacuity: (a) same in-plane origin, other focal plane -> not 'preserved', the caller's z is
+   recorded; (b) identical origin (written 2/4 vs 1/2), default tiles -> the source's item is copied;
+   (c) identical placement but another mask shape is refused; (d) three of four 2x2 tiles of a 3x3
+   mask are stored when empty tiles are omitted *)
+Example C03_placed_example :
+  let rc := V3 0 (-1) 0 in let cc := V3 (-1) 0 0 in
+  placed_origin (V3 10 20 0) (V3 10 20 (1 # 4)) 1 1 1 true rc cc rc cc true (1#2) (1#4) (1#2) (1#4)
+                5 7 5 7 2 3 2 3 = Ok (V3 10 20 (1 # 4)) /\
+  placed_origin (V3 10 20 (1 # 2)) (V3 10 20 (2 # 4)) 1 1 1 true rc cc rc cc true (1#2) (1#4) (1#2) (1#4)
+                5 7 5 7 2 3 2 3 = Ok (V3 10 20 (1 # 2)) /\
+  placed_origin (V3 10 20 0) (V3 10 20 0) 1 1 1 true rc cc rc cc true (1#2) (1#4) (1#2) (1#4)
+                5 7 4 7 2 3 2 3 = Err "ValueError"%string /\
+  map (fun f => fst f) (tile_frames (V3 10 20 (1 # 4)) rc cc (1#2) (1#4) 3 3 2 2
+                                    [[1;0;0];[0;0;0];[0;0;1]]%Z true) = [(1, 1); (3, 3)]%Z /\
+  length (tile_frames (V3 10 20 (1 # 4)) rc cc (1#2) (1#4) 3 3 2 2 [[0;0;0];[0;0;0];[0;0;0]]%Z true) = 4%nat.
+Proof. vm_compute. repeat split; reflexivity. Qed.
+Print Assumptions C03_placed_example.
